@@ -894,6 +894,14 @@ pub fn generate(family: &str, seed: u64, count: usize, emit: &mut dyn FnMut(Stri
         "prefix" => {
             // a literal whose integer part alone exceeds the range of a double but which a negative exponent or a
             // fraction brings back: the digits-only prefix is a complete, out-of-range literal (known finding C19)
+            // every text of the corpus under the option set it is written for (Emacs Lisp ones start with `?`, `[`, `:` or
+            // contain an Emacs escape) and under the other one where it parses too
+            for text in PREFIX_TEXTS {
+                for ro in [R_DEFAULT, R_ELISP] {
+                    if lexpr::from_slice_custom(text.as_bytes(), parse_opts(ro)).is_err() { continue; }
+                    for k in 0..=text.len() { emit(format!("prefix {} {} {} {}", ro, k, fast_flag(), hex(text.as_bytes()))); }
+                }
+            }
             let long = format!("2{}e-1", "0".repeat(308));
             for k in [305usize, 309, 310, 311] {
                 emit(format!("prefix {} {} {} {}", R_DEFAULT, k, fast_flag(), hex(long.as_bytes())));
@@ -1087,6 +1095,21 @@ pub fn generate(family: &str, seed: u64, count: usize, emit: &mut dyn FnMut(Stri
                     }
                 }
             }
+            // ill-formed UTF-8 of every class (overlong 2-, 3- and 4-byte forms, surrogates, beyond U+10FFFF, invalid lead
+            // bytes, stray and missing continuation bytes) and the valid boundary cases next to them, in every position
+            // where a character can stand
+            let seqs: &[&[u8]] = &[b"\xc0\x80", b"\xc1\xbf", b"\xc2\x80", b"\xdf\xbf", b"\xe0\x80\x80", b"\xe0\x9f\xbf", b"\xe0\xa0\x80", b"\xed\x9f\xbf", b"\xed\xa0\x80", b"\xed\xbf\xbf",
+                b"\xee\x80\x80", b"\xef\xbf\xbf", b"\xf0\x80\x80\x80", b"\xf0\x88\x80\x80", b"\xf0\x8f\xbf\xbf", b"\xf0\x90\x80\x80", b"\xf4\x8f\xbf\xbf", b"\xf4\x90\x80\x80", b"\xf5\x80\x80\x80",
+                b"\xf8\x88\x80\x80\x80", b"\xff", b"\x80", b"\xbf", b"\xce", b"\xe2\x82", b"\xf0\x9f\x98", b"\xce\x41", b"\xe2\x28\xa1", b"\xf0\x28\x8c\xbc", b"\xce\xbb", b"\xe2\x82\xac", b"\xf0\x9f\x98\x80"];
+            for sq in seqs {
+                for (pre, post) in [(&b"#\\"[..], &b""[..]), (b"#\\", b" x"), (b"(#\\", b")"), (b"?", b""), (b"?\\", b""), (b"(?", b" a)"), (b"", b""), (b"", b"x"), (b"a", b"b"), (b"(a", b")"), (b"\"", b"\""), (b"\"a\\n", b"b\""), (b"\"\\", b"\""), (b"#:", b""), (b":", b""), (b";", b"\na")] {
+                    let mut t = pre.to_vec(); t.extend_from_slice(sq); t.extend_from_slice(post);
+                    for ro in [R_DEFAULT, R_ELISP] {
+                        emit(parse_op("b", ro, "r:v:4", &t));
+                        emit(parse_op("i1", ro, "r:d:4", &t));
+                    }
+                }
+            }
             // an error that stops inside a multi-byte character, then more calls on the same parser (all sources), and
             // malformed escapes followed by more data read through ONE kept iterator object
             for text in ["#é x", "\"\\é\" y", "#\\xé z", "#né w", "?\\^é v", "(a #é) b", "#\\x4g b c", "\"\\x4z;\" b c", "a #\\x4g b c", "(\"\\xg;\") d e"] {
@@ -1273,7 +1296,7 @@ pub const TOKEN_CORPUS: &[&str] = &[
     "1e", "1.", "-.5", "+.a", "12:", "1e3:", "a::", "x:y", "#x1F", "#b2",
     "+.a:", "-.foo:", "+..:", "-.:", "-a:", "...:", "..a:", "+:", "-:", "1#t", "#x1F#t", "-5#t", "1.5#f", "1|", "a#t", "+.5:", "-.5a", ".5:", "#t:", "'a:", "?a:", "#\\a:",
     // shorthands directly after one another, in every order; number prefixes running into bytes that end a number but not a symbol
-    "1e999", "2.5e+310", "-1e999", "'`a", "`'a", ",'a", "',a", ",@'a", "',@a", "`,@a", "`,a", "''a", ",,a", "'`,a", ",@`'a", "12|x", "3\"a\"", "12|x:", "1e3\"s\"", "-7|", "+1.5|a", "#x1F|", "1.5e3|x",
+    "1e999", "2.5e+310", "-1e999", "t|", "t\"a\"", "nil|", "nil\"a\"", "t|x", "tt|", "#t|", "'`a", "`'a", ",'a", "',a", ",@'a", "',@a", "`,@a", "`,a", "''a", ",,a", "'`,a", ",@`'a", "12|x", "3\"a\"", "12|x:", "1e3\"s\"", "-7|", "+1.5|a", "#x1F|", "1.5e3|x",
 ];
 
 pub const POSITIONS: &[&str] = &["@", "(\n @)", "(@ x)", "(x @)", "(x . @)", "#(@)", "#(x @)", "[@]", "[x @]", "(@)", "(x @ y)", " @ ", "@;c", "'@", "(x . @ )", "[x . @]", "@\n", "@\x0c", "@\"s\"", "@|"];
@@ -1418,7 +1441,18 @@ fn digits(r: &mut Rng, radix: u32, n: usize) -> String {
 
 pub fn gen_num_literal(r: &mut Rng) -> String {
     let sign = *r.pick(&["", "", "-", "+"]);
-    match r.below(15) {
+    match r.below(16) {
+        15 => {
+            // radix literals at the very top of the range of a double: 1024 significant bits, the leading ones all set
+            // (the significand rounds up to 2^64), and their neighbours
+            let ones = *r.pick(&[1023usize, 1024, 1025, 960, 1000]);
+            let lit = match r.below(3) {
+                0 => format!("#x{}", "f".repeat(ones / 4)),
+                1 => format!("#b{}", "1".repeat(ones)),
+                _ => format!("#o{}{}", r.pick(&["1", "3", "7", ""]), "7".repeat(ones / 3)),
+            };
+            format!("{}{}", lit, r.pick(&["", "", "0", "e"]))
+        }
         14 => {
             // a radix literal too long for 64 bits that runs into a fraction, an exponent or a digit of another radix
             let (prefix, radix, n) = *r.pick(&[("#b", 2u32, 66usize), ("#o", 8, 24), ("#x", 16, 18), ("#d", 10, 22), ("#b", 2, 200), ("#o", 8, 23)]);
@@ -1486,6 +1520,6 @@ pub fn gen_num_literal(r: &mut Rng) -> String {
         8 => format!("{}{}e{}", sign, 1 + r.below(9), *r.pick(&[-324i32, -323, -322, -308, -307, 307, 308, 309, 400, -400, 2147483647, -2147483647, 22, 23, -22, -23])),
         9 => { let z = r.below(330); let n = 1 + r.below(20); format!("{}0.{}{}", sign, "0".repeat(z), digits(r, 10, n)) }
         10 => { let a = 1 + r.below(30); let b = 1 + r.below(12); let x = digits(r, 10, a); let y = digits(r, 10, b); format!("{}{}e{}", sign, x, y) }
-        _ => r.pick(&["1e21", "5e-324", "1e16", "1e-7", "1e3", "1.7976931348623157e308", "1.7976931348623157081452742373e308", "1.7976931348623158e308", "1.7976931348623159e308", "2e308", "4.9e-324", "2.4e-324", "2.5e-324", "0e999999999999", "1e-999999999999", "0.0e5", "00", "-0", "1E5", "1.0E+5", "9007199254740993", "9007199254740993.0", "18446744073709551615", "18446744073709551616", "-9223372036854775808", "-9223372036854775809", "#x-8000000000000000", "#xFFFFFFFFFFFFFFFF", "#x10000000000000000", "#b1e1", "#x1e1", "#d1e1", "#o18", "#b12", "#xg", "1.5e", "1.e5", ".5", "1..5", "1e5.5", "1e5e5", "123456789012345678901234567890", "0.1", "0.2", "0.3", "179769313486231570000000000000000000000000000000000000000000000000000000000000000000000000000000000000000000000000000000000000000000000000000000000000000000000000000000000000000000000000000000000000000000000000000000000000000000000000000000000000000000000000000000000000000000000000000000000000000000000"]).to_string(),
+        _ => r.pick(&["1e21", "5e-324", "1e16", "1e-7", "1e3", "1.7976931348623157e308", "1.7976931348623157081452742373e308", "1.7976931348623158e308", "-0", "-00", "#x-0", "#b-00", "#o-0", "#d-0", "+0", "-0.0", "1.7976931348623159e308", "2e308", "4.9e-324", "2.4e-324", "2.5e-324", "0e999999999999", "1e-999999999999", "0.0e5", "00", "-0", "1E5", "1.0E+5", "9007199254740993", "9007199254740993.0", "18446744073709551615", "18446744073709551616", "-9223372036854775808", "-9223372036854775809", "#x-8000000000000000", "#xFFFFFFFFFFFFFFFF", "#x10000000000000000", "#b1e1", "#x1e1", "#d1e1", "#o18", "#b12", "#xg", "1.5e", "1.e5", ".5", "1..5", "1e5.5", "1e5e5", "123456789012345678901234567890", "0.1", "0.2", "0.3", "179769313486231570000000000000000000000000000000000000000000000000000000000000000000000000000000000000000000000000000000000000000000000000000000000000000000000000000000000000000000000000000000000000000000000000000000000000000000000000000000000000000000000000000000000000000000000000000000000000000000000"]).to_string(),
     }
 }
